@@ -691,6 +691,18 @@ theorem typed_get_set_etag (h : HList) (e : Str) (weak : Bool) (hq : e.contains 
 
 example : Scalar.setEtag [] "a\"b".toList false = ([], .error "ValueError") := by decide
 
+/-- **every typed Cache-Control accessor x every kind of value**: `_set_cache_value` followed by
+`_get_cache_value`, evaluated on the live class for directive type bool / int / str x value None /
+True / False / zero, positive, negative ints / empty, numeric, other strings x directive absent or
+present - the model's `CC.setValue` / `CC.getValue` predict every row (what is stored: removed, present
+without value, the text; ValueError; and the typed read-back). A bool directive is removed by every
+falsy value and set by every truthy one. -/
+theorem cache_set_table_matches_model :
+    Gen.CacheSetTable.rows.all (fun (ty, code, present, stored, got) =>
+      CC.tableRow ty.toList code.toList present == (stored.toList, got.toList)) = true ∧
+    Gen.CacheSetTable.rows.length = 66 := by
+  decide +kernel
+
 /-! ## every header-backed attribute of `sansio.Response` is covered
 
 `Gen.ResponseProps.attrs` is regenerated from the live class and the AST of the module: every
